@@ -51,51 +51,48 @@ theorem run_snoc (st st1 st2 : St) (ls : List Label) (l : Label) (h1 : run .code
   simp [Model.ParserPools.run, h2]
 
 /-- Walking a row never blocks, and the labels issued are a run of the pool model. -/
-theorem driveActs_run (c : Choice) (acts : List Act) (r : Nat) (s : PState) (st0 st : St) (ls : List Label)
-    (h0 : run .code st0 ls = some st) :
-    ∃ st' ls', driveActs c acts r s st ls = some (st', ls') ∧ run .code st0 ls' = some st' ∧
-      ∃ more, ls' = ls ++ more := by
-  induction acts generalizing s st ls with
-  | nil => exact ⟨st, ls, rfl, h0, [], by simp⟩
+theorem driveActs_run (c : Choice) (acts : List Act) (r : Nat) (s : PState) (st0 : St) (acc : Acc)
+    (h0 : run .code st0 acc.ls = some acc.st) :
+    ∃ acc', driveActs c acts r s acc = some acc' ∧ run .code st0 acc'.ls = some acc'.st := by
+  induction acts generalizing s acc with
+  | nil => exact ⟨acc, rfl, h0⟩
   | cons a rest ih =>
     by_cases hret : ∃ n', a = .retIfIgnoreST n'
     · obtain ⟨n', rfl⟩ := hret
       simp only [driveActs]
       split
-      · exact ⟨st, ls, rfl, h0, [], by simp⟩
-      · exact ih s st ls h0
-    · have hd : driveActs c (a :: rest) r s st ls =
-          (match poolLabel c st a r with
-           | none => driveActs c rest r (applyAct a r s).1 st ls
+      · exact ⟨acc, rfl, h0⟩
+      · exact ih s acc h0
+    · have hd : driveActs c (a :: rest) r s acc =
+          (match poolLabel c acc.st a r with
+           | none => driveActs c rest r (applyAct a r s).1 acc
            | some l =>
-             match Model.ParserPools.step .code st l with
+             match Model.ParserPools.step .code acc.st l with
              | none => none
-             | some st' => driveActs c rest r (applyAct a r s).1 st' (ls ++ [l])) := by
+             | some st' =>
+               driveActs c rest r (applyAct a r s).1
+                 { st := st', ls := acc.ls ++ [l],
+                   views := if isDispatchLabel l then acc.views ++ [⟨s.inter, contents acc.st⟩] else acc.views }) := by
         cases a <;> first | (exfalso; exact hret ⟨_, rfl⟩) | rfl
       rw [hd]
-      cases hl : poolLabel c st a r with
-      | none => exact ih _ st ls h0
+      cases hl : poolLabel c acc.st a r with
+      | none => exact ih _ acc h0
       | some l =>
-        obtain ⟨st1, hs⟩ := poolLabel_enabled c st a r l hl
+        obtain ⟨st1, hs⟩ := poolLabel_enabled c acc.st a r l hl
         simp only [hs]
-        obtain ⟨st', ls', e1, e2, more, e3⟩ := ih (applyAct a r s).1 st1 (ls ++ [l]) (run_snoc st0 st st1 ls l h0 hs)
-        exact ⟨st', ls', e1, e2, l :: more, by rw [e3]; simp⟩
+        exact ih (applyAct a r s).1 _ (run_snoc st0 acc.st st1 acc.ls l h0 hs)
 
-theorem driveRune_run (T : Table) (c : Choice) (s : PState) (st0 st : St) (r : Nat) (ls0 : List Label)
-    (h0 : run .code st0 ls0 = some st) :
-    ∃ st' ls, driveRune T c s st r = some (st', ls) ∧ run .code st0 (ls0 ++ ls) = some st' := by
-  -- run the labels of this rune from `st` and append
-  obtain ⟨st1, l1, e1, e2, _⟩ := driveActs_run c (T.anywhere.row (.rune r)).1 r s st st [] rfl
+theorem driveRune_run (T : Table) (c : Choice) (s : PState) (st0 : St) (acc : Acc) (r : Nat)
+    (h0 : run .code st0 acc.ls = some acc.st) :
+    ∃ acc', driveRune T c s acc r = some acc' ∧ run .code st0 acc'.ls = some acc'.st := by
+  obtain ⟨acc1, e1, e2⟩ := driveActs_run c (T.anywhere.row (.rune r)).1 r s st0 acc h0
   simp only [driveRune, e1]
   cases hn : (runFn T.anywhere (.rune r) s).2.2 with
   | dispatch =>
     simp only
-    obtain ⟨st2, l2, f1, f2, _⟩ := driveActs_run c ((T.fn (runFn T.anywhere (.rune r) s).1.state).row (.rune r)).1 r
-      (runFn T.anywhere (.rune r) s).1 st st1 l1 e2
-    refine ⟨st2, l2, f1, ?_⟩
-    rw [run_append .code ls0 l2 st0 st h0]; exact f2
-  | st x => exact ⟨st1, l1, rfl, by rw [run_append .code ls0 l1 st0 st h0]; exact e2⟩
-  | stop => exact ⟨st1, l1, rfl, by rw [run_append .code ls0 l1 st0 st h0]; exact e2⟩
+    exact driveActs_run c _ r _ st0 acc1 e2
+  | st x => exact ⟨acc1, rfl, e2⟩
+  | stop => exact ⟨acc1, rfl, e2⟩
 
 /-- The composite never blocks and its trace is a run of the pool model to its pool state. -/
 theorem drun_run (T : Table) (ls : List DLabel) (d : DSt) (h0 : run .code St.init d.trace = some d.pool) :
@@ -105,12 +102,12 @@ theorem drun_run (T : Table) (ls : List DLabel) (d : DSt) (h0 : run .code St.ini
   | cons l rest ih =>
     cases l with
     | rune r c =>
-      obtain ⟨st', ls', e1, e2⟩ := driveRune_run T c d.ps St.init d.pool r d.trace h0
+      obtain ⟨acc', e1, e2⟩ := driveRune_run T c d.ps St.init d.acc r h0
       simp only [drun, dstep, e1]
       exact ih _ e2
     | finish k =>
       simp only [drun, dstep]
-      cases hs : Model.ParserPools.step .code d.pool (.finish k) with
+      cases hs : Model.ParserPools.step .code d.acc.st (.finish k) with
       | none => exact ih d h0
       | some st' => exact ih _ (run_snoc St.init d.pool st' d.trace _ h0 hs)
 
